@@ -145,6 +145,19 @@ pub fn structural_offsets(data: &[u8], prefix: usize) -> Vec<bool> {
     m
 }
 
+/// Only the windows around `THTX` tags (texture headers).
+pub fn texture_header_offsets(data: &[u8]) -> Vec<bool> {
+    let mut m = vec![false; data.len()];
+    for i in 0..data.len().saturating_sub(3) {
+        if &data[i..i + 4] == b"THTX" {
+            for j in i..(i + 16).min(data.len()) {
+                m[j] = true;
+            }
+        }
+    }
+    m
+}
+
 pub fn select_by(all: &[Corruption], is_header: &dyn Fn(usize) -> bool, near: usize, far: usize, seed: u64) -> Vec<Corruption> {
     let mut out = vec![];
     let (mut i_near, mut i_far) = (0usize, 0usize);
